@@ -198,6 +198,61 @@ def run_seq(seed, length=14, kinds=None, forced=None):
     return None
 
 
+def scripted():
+    """fixed single-trainer scenarios on two cells of one layer that share their neuron (so their postsynaptic monitors are
+    pooled) but not their connection:
+      S1  one cell deletes a pooled monitor: the other cell's (same) monitor keeps recording;
+      S2  one cell re-adds a pooled name with unique=True: the other cell keeps its monitor, still recording;
+      S3  monitors on the two DIFFERENT connections are not aliased and each records its own connection"""
+    fails = []
+
+    def setup():
+        lay = layer()
+        tr = STDP(1e-2, -5e-3, 20.0, 15.0)
+        ca, cb = lay.cells.c1.n, lay.cells.c2.n
+        tr.register_cell("a", ca)
+        tr.register_cell("b", cb)
+        return lay, tr
+
+    def recorded(lay, mon, x1=1.0, x2=1.0):
+        n = [0]
+        h = mon.reducer.register_forward_hook(lambda m_, a_, o_: n.__setitem__(0, n[0] + 1))
+        lay({"c1": (torch.full((1, 3), x1),), "c2": (torch.full((1, 3), x2),)})
+        h.remove()
+        return n[0]
+
+    try:
+        lay, tr = setup()
+        ma, mb = tr.get_monitor("a", "spike_post"), tr.get_monitor("b", "spike_post")
+        if ma is not mb:
+            fails.append({"what": "C15/scripted/shared_neuron_monitor_not_pooled", "input": dict(scenario="S1"), "expected": "same object", "actual": "distinct"})
+        tr.del_monitor("a", "spike_post")
+        got = recorded(lay, mb)
+        if got != 1 or not mb.registered:
+            fails.append({"what": "C15/scripted/pooled_monitor_silenced_by_other_cells_delete", "input": dict(scenario="S1: register a, b; del_monitor(a, spike_post); layer step"), "expected": "b.spike_post records 1 observation and stays hooked", "actual": dict(observations=got, registered=mb.registered)})
+    except Exception as e:  # noqa: BLE001
+        fails.append({"what": "C15/scripted/exception", "input": dict(scenario="S1"), "expected": "no exception", "actual": f"{type(e).__name__}: {e}"})
+    try:
+        lay, tr = setup()
+        mb = tr.get_monitor("b", "spike_post")
+        tr.add_monitor("a", "spike_post", "neuron.spike", StateMonitor.partialconstructor(PassthroughReducer(1.0, duration=0.0), train_update=True, eval_update=False), True)
+        got = recorded(lay, mb)
+        if tr.get_monitor("b", "spike_post") is not mb or got != 1 or not mb.registered:
+            fails.append({"what": "C15/scripted/pooled_monitor_silenced_by_other_cells_unique_readd", "input": dict(scenario="S2: register a, b; add_monitor(a, spike_post, unique=True); layer step"), "expected": "b keeps its monitor, 1 observation, hooked", "actual": dict(same=tr.get_monitor("b", "spike_post") is mb, observations=got, registered=mb.registered)})
+    except Exception as e:  # noqa: BLE001
+        fails.append({"what": "C15/scripted/exception", "input": dict(scenario="S2"), "expected": "no exception", "actual": f"{type(e).__name__}: {e}"})
+    try:
+        lay, tr = setup()
+        pa, pb = tr.get_monitor("a", "spike_pre"), tr.get_monitor("b", "spike_pre")
+        lay({"c1": (torch.ones(1, 3),), "c2": (torch.zeros(1, 3),)})
+        va, vb = pa.peek(), pb.peek()
+        if pa is pb or not bool(va.any()) or bool(vb.any()):
+            fails.append({"what": "C15/scripted/monitors_of_different_connections_aliased", "input": dict(scenario="S3: cells a (connection c1, driven) and b (connection c2, silent)"), "expected": "distinct monitors: a sees spikes, b sees none", "actual": dict(same_object=pa is pb, a_any=bool(va.any()), b_any=bool(vb.any()))})
+    except Exception as e:  # noqa: BLE001
+        fails.append({"what": "C15/scripted/exception", "input": dict(scenario="S3"), "expected": "no exception", "actual": f"{type(e).__name__}: {e}"})
+    return fails, 3
+
+
 def d16():
     """fixed script: eligibility-trace trainer, then a plain STDP trainer on the same cell"""
     return run_seq(0, 3, ["mstdpet", "stdp_b"], [("register", 0, "a", False), ("register", 1, "a", False), ("step", 0, "a", False)])
@@ -215,7 +270,10 @@ def sweep(tier="quick", seed=0, unsupported=()):
     f = d16()
     if f is not None and not any(x["what"] == f["what"] for x in failures):
         failures.append(f)
-    return {"standins": [{"function": "CellTrainer / MonitorPool / Observable / Monitor operation sequences on real STDP, TripletSTDP, MSTDP, MSTDPET trainers (register/del cell, add/del monitor, trainer and layer train/eval, layer step, trainer step, clear, drop second trainer + gc.collect()) over two layers and three cells, two of which share a neuron", "domain": f"{n} random sequences of length 14, one or two trainers", "cases": cases, "proved": False, "label": "bounded"}], "failures": failures}
+    fs, ns = scripted()
+    failures.extend(fs)
+    cases += ns
+    return {"standins": [{"function": "scripted pooled-monitor scenarios (delete / unique re-add by the other cell, no aliasing across connections); CellTrainer / MonitorPool / Observable / Monitor operation sequences on real STDP, TripletSTDP, MSTDP, MSTDPET trainers (register/del cell, add/del monitor, trainer and layer train/eval, layer step, trainer step, clear, drop second trainer + gc.collect()) over two layers and three cells, two of which share a neuron", "domain": f"{n} random sequences of length 14, one or two trainers", "cases": cases, "proved": False, "label": "bounded"}], "failures": failures}
 
 
 def replay(contract, label, model, note=""):
@@ -223,12 +281,18 @@ def replay(contract, label, model, note=""):
         f = d16()
         return {"reproduced": f is not None, "failure": f, "concrete": f["input"] if f else None}
     r = sweep("quick", 0)
-    if r["failures"]:
-        return {"reproduced": True, "failure": r["failures"][0], "concrete": r["failures"][0]["input"]}
+    # never the recorded finding D16 (two trainers sharing a cell's monitor map)
+    fs = [f for f in r["failures"] if f["what"] not in ("C15/cell_monitor_map_redirected", "C15/exception_after_monitor_map_redirect")]
+    if fs:
+        return {"reproduced": True, "failure": fs[0], "concrete": fs[0]["input"]}
     return {"reproduced": False, "search": {"points_tried": r["standins"][0]["cases"]}}
 
 
 def replay_native(rp):
     i = rp["input"]
+    if str(rp.get("what", "")).startswith("C15/scripted"):
+        fs, _ = scripted()
+        hit = [f for f in fs if f["what"] == rp.get("what")]
+        return {"reproduced": bool(hit), "failure": hit[0] if hit else None}
     f = run_seq(i["seed"], len(i["ops"]), i["kinds"], [tuple(o) for o in i["ops"]])
     return {"reproduced": f is not None, "failure": f}
